@@ -835,11 +835,11 @@ def _claims_sweep_post(ctx):
     k = fresh_int("claimkey")
     eid = z3.Select(ent.col("execution_id"), k)
     complete_codes = [I.ops.lit(n).t for n in ("SUCCEEDED", "FAILED_CONTINUE", "SKIPPED", "TERMINAL", "CANCELED", "STOPPED")]
+    # (rows are keyed by their primary key: the row of execution e is the one at key e -- the SQL front end resolves
+    # `execution_id IN (SELECT id FROM pipeline_executions ...)` as that look-up)
     live = z3.And(z3.Select(ex.exists, eid), z3.Not(z3.Or(*[z3.Select(ex.col("status"), eid) == c for c in complete_codes])),
-                  z3.Not(z3.Select(ex.null("status"), eid)), z3.Select(ex.col("id"), eid) == eid)
-    r = z3.Int("pk_r")
-    pk_inv = z3.ForAll([r], z3.Select(ex.col("id"), r) == r)  # rows are keyed by their primary key (table model invariant)
-    return [("live-claims-survive", z3.Implies(z3.And(pk_inv, z3.Select(ent.exists, k), z3.Not(z3.Select(ent.null("execution_id"), k)), live), z3.Select(cur.exists, k))),
+                  z3.Not(z3.Select(ex.null("status"), eid)))
+    return [("live-claims-survive", z3.Implies(z3.And(z3.Select(ent.exists, k), z3.Not(z3.Select(ent.null("execution_id"), k)), live), z3.Select(cur.exists, k))),
             ("nothing-created", z3.Implies(z3.Not(z3.Select(ent.exists, k)), z3.Not(z3.Select(cur.exists, k))))]
 
 
@@ -1044,6 +1044,50 @@ def _bind_scope(ctx, depth_sym=True):
     I.st.objs[local.oid].fields["scope"] = SOpt(SObj(oid), z3.Bool("no_scope_bound"))
     ctx.extra["scope"] = SObj(oid)
     ctx.extra["local"] = local
+    # the thread-local object is entered in whatever state earlier calls left it: every other attribute the module assigns
+    # on it (none today) may be unset or hold a scope object about which nothing is known
+    import ast as _ast
+
+    mod = I.index.modules["stabilize.events.txn_scope"]
+    names = set()
+    for n_ in _ast.walk(mod.tree):
+        if isinstance(n_, _ast.Attribute) and isinstance(n_.ctx, _ast.Store) and isinstance(n_.value, _ast.Name) and n_.value.id == "_local":
+            names.add(n_.attr)
+    for nm in sorted(names - {"scope"}):
+        oid2 = I.st.new_id()
+        rec2 = ObjRec(ci.name, ci, {}, {"name": f"left_over_{nm}"})
+        I.st.objs[oid2] = rec2
+        rec2.fields["depth"] = SInt(z3.Int(f"left_over_{nm}.depth"))
+        rec2.fields["pending"] = I.ops.new_derived(I.ops.segments(fresh_value(I.st, I.typer, ("list", ("obj", "Event")), f"left_over_{nm}.pending", det=True)))
+        rec2.fields["connection"] = SQL.new_connection(I, f"left_over_{nm}_conn")
+        rec2.fields["url"] = SOpt(SStr(z3.Int(f"left_over_{nm}.url")), z3.Bool(f"left_over_{nm}.url?"))
+        I.st.objs[local.oid].fields[nm] = SOpt(SObj(oid2), z3.Bool(f"no_{nm}"))
+
+
+def _begin_scope_post(ctx):
+    """begin_store_transaction: with no scope bound, binds a scope for THIS transaction -- depth 1, the given connection and
+    url, and NO deferred publication carried over from anywhere (an event pending from an earlier, rolled back transaction
+    would be published by this one's commit); with a scope bound, only the depth grows."""
+    I = ctx.I
+    if ctx.exc is not None:
+        return [("no-exception", FALSE)]
+    nobound = z3.Bool("no_scope_bound")
+    d = z3.Int("scope_depth")
+    local = I.st.objs[ctx.extra["local"].oid]
+    cur = local.fields.get("scope")
+    goals = [("a-scope-is-bound", z3.Not(I.ops.is_none(cur)))]
+    now = I.ops.strip_opt(cur) if not isinstance(cur, SObj) else cur
+    if isinstance(now, SObj):
+        rec = I.st.objs[now.oid]
+        if now.oid == ctx.extra["scope"].oid:
+            goals.append(("nested-begin-only-deepens", z3.And(z3.Not(nobound), I.ops.as_int(rec.fields["depth"]) == d + 1)))
+        else:
+            goals.append(("fresh-scope-only-when-none-was-bound", nobound))
+            goals.append(("fresh-scope.depth-1", I.ops.as_int(rec.fields["depth"]) == 1))
+            goals.append(("fresh-scope.no-pending-publication-carried-over", I.ops.list_len(rec.fields["pending"]) == 0))
+            goals.append(("fresh-scope.connection", z3.BoolVal(isinstance(rec.fields["connection"], SObj) and rec.fields["connection"].oid == ctx.args["connection"].oid)))
+            goals.append(("fresh-scope.url", I.ops.eq(rec.fields["url"], ctx.args["url"])))
+    return goals
 
 
 def _commit_scope_post(ctx):
@@ -1142,6 +1186,9 @@ def c13_units():
     out = []
     reg = scope_registry()
     common = dict(names=STATUS_NAMES, replayable=False, params=[])
+    out.append(Unit(prop="*", name="L1/txn_scope.begin_store_transaction", func=TS + "begin_store_transaction", registry=reg,
+                    setup=_bind_scope, obligations=[Obl("C13/scope/begin", _begin_scope_post, when="any")], names=STATUS_NAMES, replayable=False,
+                    params=[("connection", lambda ctx: SQL.new_connection(ctx.I, "txn_conn")), ("url", ("opt", ("str",)))]))
     out.append(Unit(prop="*", name="L1/txn_scope.commit_store_transaction", func=TS + "commit_store_transaction", registry=reg,
                     setup=_bind_scope, obligations=[Obl("C13/scope/commit", _commit_scope_post, when="any")], **common))
     out.append(Unit(prop="*", name="L1/txn_scope.abort_store_transaction", func=TS + "abort_store_transaction", registry=reg,
